@@ -196,7 +196,7 @@ func checkC04(c *run.Ctx) {
 			c.Witness(f, what != "", fmt.Sprintf("%q: %s", wv.Document, what))
 		}
 	}
-	n := c.N(1500, 30000)
+	n := c.N(3000, 30000)
 	reps := c.N(12, 60)
 	c.Parallel("doc", n, func(i int, r *rand.Rand) {
 		refs := c04Refs
@@ -211,7 +211,7 @@ func checkC04(c *run.Ctx) {
 			BlockNames:    []string{"BLK1", "BLK2", "X", "Y"},
 			Unknown:       i%3 == 0,
 			Signature:     true,
-			Sharing:       i%4 == 1,
+			Sharing:       i%3 == 1,
 			BigMaps:       i%2 == 0,
 			NoTime:        true,
 		}.NoSweep()
